@@ -239,3 +239,13 @@ def nice (d0 d1 : Int) (count : Rat) : Int × Int :=
   if d1 < d0 then (r.2, r.1) else r
 
 end Labella.Calendar
+
+namespace Labella.Calendar
+
+/-- `TimeScale.__call__`: the linear scale applied to milliseconds since the epoch -/
+def timeApply (d0 d1 : Int) (r0 r1 : Rat) (t : Int) : Rat := Scale.apply false d0 d1 r0 r1 t
+
+/-- `TimeScale.invert` (as a rational number of milliseconds, before conversion back to a datetime) -/
+def timeInvert (d0 d1 : Int) (r0 r1 : Rat) (y : Rat) : Rat := Scale.invert false d0 d1 r0 r1 y
+
+end Labella.Calendar
